@@ -33,7 +33,11 @@ MANIFEST = {
             "Chain.kdfK, l1seed := compute_l1_key, octet strings numbered injectively: abs commutes with init / load_key / _store_key (unconditionally) and _get_key (for an L0 the source accepts "
             "and root keys naming a supported hash); one unprotect call is one abstract unprotect step (cache afterwards; o_rpcs = 0 exactly when the call equals the offline function for every "
             "network oracle); histories of {load_key, sync unprotect} are simulated (C10_refine_history); hence C10_concrete_no_repeat_rpc and C10_concrete_transparent (the envelope a completed "
-            "call decrypts with has, at the blob's position, the MS-GKDI chain key of the true root key as L2 key), with a symg instance (C10_refine_ex_*).",
+            "call decrypts with has, at the blob's position, the MS-GKDI chain key of the true root key as L2 key), with a symg instance (C10_refine_ex_*). "
+            "History-level transparency names the call: C10_outcomes_tied pairs the calls of an admitted history in completion order (completed) with the outcomes - unprotect: that call's "
+            "(rk, sd, l0, l1, l2) and key_at of exactly those, a public outcome is the DC's reply to that request; protect: served from the cache at the caller's position for the named root key, "
+            "or protect_finish of the DC's reply; C10_history_same_as_fresh: every completed call compared with the same call on an empty cache; C10_protect_same_as_fresh. The harness "
+            "checks that every blob a protect call produces decrypts to the plaintext with a fresh cache holding only the root key.",
     "note": "Loads are of true root keys and the DC is conforming (hypotheses of the theorems, built that way in the harness). CPython's single-threaded event loop makes await points the only interleaving points; OS threads sharing a cache are outside the model.",
     "technique": "Coq proof (state-machine invariant by induction over event histories) + history/interleaving correspondence",
 }
@@ -44,7 +48,21 @@ PARTIAL = [
     "it finds names the hash h the abstract kdf is instantiated with. Missing: deriving both from conformance of cached envelopes (Inv of abs cc: needs 'a conforming chain over K = res bytes "
     "is error-free for an in-range L0' and a per-envelope hash invariant, since the abstract kdf has ONE hash while concrete envelopes carry their own KDF parameters), and with it protect events "
     "in concrete histories. Also: Model/Client.v protect_online / protect_offline return the ORIGINAL cache when _get_protection_gke_from_cache raises, the abstract model the cache after _get_key "
-    "(the Python object is mutated before the raise): outside the hypotheses, not a property any theorem uses.",
+    "(the Python object is mutated before the raise): REPAIRED - checked against the running code (the root-derived entry stays in the cache after a raise inside "
+    "_get_protection_gke_from_cache), Model/Client.v protect_offline now returns protection_lookup_cache (the cache after the lookup) on that path, as the abstract model does.",
+    "L0 guard: the abstract Model/Cache.v get_key has no counterpart of KeyCache._get_key's `if not 0 <= l0 <= 0x7FFFFFFF: raise ValueError` (the concrete cc_get_key has it: "
+    "k_cache_l0_guard). Declared instead of modelled: ev_adm (the histories of C10_transparent / C10_outcomes_tied / C10_history_same_as_fresh) now requires l0_in_range "
+    "(= the regenerated guard is false, C10_l0_guard) for unprotect AND protect requests; the per-call theorems C10_unprotect_sync / C10_protect_sync / C10_same_as_fresh / "
+    "C10_protect_same_as_fresh are about the error-free model and say nothing for an L0 the source refuses (there the source raises before touching the cache).",
+    "C10_history_same_as_fresh / C10_protect_same_as_fresh: a protect call SERVED FROM THE CACHE is compared with the fresh-cache call only under dc_clock (the DC answers "
+    "(-1,-1,-1) for the caller's clock position and the named root key): without it the two legitimately differ (a fresh cache uses the DC's current position). Unprotect and "
+    "RPC-path protect need no such hypothesis. For public-key outcomes `tied` states that the outcome is the DC's reply to exactly that call's request, nothing about the KEK.",
+    "no lemma shows that the harness DC (udc of Model/Units_cache.v, RefDC in this module) meets dc_explicit_ok / dc_conforming_ok: the abstract ref_dc does (C10_ref_dc_explicit, "
+    "C10_ref_dc_conforming) and udc is written after it, but their equality under the symbolic instantiation is not proved; the C10_refine_ex_* instance uses a DC that only hands out "
+    "public envelopes (conformance vacuous).",
+    "C10_concrete_no_repeat_rpc / C10_concrete_transparent: concrete histories are {load_key, SYNC unprotect}; the concrete model has no async interleavings (those are in the abstract "
+    "model and, for the source, in the sync/async twin ties C10_flow_twin_*).",
+    "flows: KeyCache._get_key / _store_key have no flow tie (aliasing, refused by the translator); the cache at a raise INSIDE a callee that is handed the cache is not tied.",
 ]
 ASSUMPTIONS = ["root keys loaded into the cache are the true root keys; the domain controller returns conforming envelopes (reference DC in the harness)",
                "asyncio interleaves coroutines only at await points"]
@@ -126,7 +144,10 @@ class RefDC:
             k2, flags = K2(self.hid, rk, sd, p0, p1, p2), 2
         return GroupKeyEnvelope(version=1, flags=flags, l0=p0, l1=p1, l2=p2, root_key_identifier=RKIDS[rk],
                                 kdf_algorithm="SP800_108_CTR_HMAC", kdf_parameters=KDFParameters(HASH_NAMES[self.hid]).pack(),
-                                secret_algorithm="DH", secret_parameters=b"", private_key_length=16, public_key_length=16,
+                                secret_algorithm="DH",
+                                # a public-key reply carries the group the public key lives in (compute_kek checks the peer's key against it)
+                                secret_parameters=FFCDHParameters(key_length=2, field_order=65521, generator=17).pack() if self.pub else b"",
+                                private_key_length=16, public_key_length=16,
                                 domain_name="d.test", forest_name="f.test", l1_key=k1, l2_key=k2)
 
 
@@ -152,8 +173,13 @@ def blob_at(hid, sd, rk, l0, l1, l2):
     return _BLOBS[key]
 
 
-def _observe_protect(blob):
+def _observe_protect(blob, hid):
+    """What a blob produced by (async_)ncrypt_protect_secret says about the call: the seed key its KEK was derived from, the position
+    and the mode; and - private mode - that it really DECRYPTS to the plaintext for a caller who only has the true root key (a fresh
+    cache holding it, no DC): otherwise the outcome is the error DoesNotDecrypt, which neither the model nor pred accepts."""
+    import dpapi_ng
     from dpapi_ng._blob import DPAPINGBlob
+    from dpapi_ng._gkdi import KDFParameters
 
     b = DPAPINGBlob.unpack(blob)
     kid = b.key_identifier
@@ -163,6 +189,14 @@ def _observe_protect(blob):
         f = sym.sym_parse(3, b.enc_cek)
         kek = sym.sym_parse(1, f[0]) if f else None
         key = kek[1] if kek else Err("ValueError")
+        fresh = dpapi_ng.KeyCache()
+        fresh.load_key(ROOT, kid.root_key_identifier, kdf_parameters=KDFParameters(HASH_NAMES[hid]).pack())
+        try:
+            pt = dpapi_ng.ncrypt_unprotect_secret(blob, server="unreachable", cache=fresh)
+        except Exception:  # noqa: BLE001
+            pt = None
+        if pt != PLAIN:
+            key = Err("DoesNotDecrypt")
     return key, kid.l0, kid.l1, kid.l2, pub
 
 
@@ -212,7 +246,7 @@ def impl_run(arg):
                         try:
                             blob = dpapi_ng.ncrypt_protect_secret(PLAIN, SIDS[sd], root_key_identifier=None if rk is None else RKIDS[rk],
                                                                   server="dc", cache=cache)
-                            key, o0, o1, o2, opub = _observe_protect(blob)
+                            key, o0, o1, o2, opub = _observe_protect(blob, hid)
                             outs.append([key if not opub else b"PUB", o0, o1, o2, opub, dc.calls - before])
                         except Exception as exc:  # noqa: BLE001
                             from ..core import classify
@@ -272,7 +306,7 @@ async def _async_run(dc, cache, hid, events, CL, dpapi_ng):
             try:
                 blob = await dpapi_ng.async_ncrypt_protect_secret(PLAIN, SIDS[sd], root_key_identifier=None if rk is None else RKIDS[rk],
                                                                   server="dc", cache=cache)
-                key, o0, o1, o2, opub = _observe_protect(blob)
+                key, o0, o1, o2, opub = _observe_protect(blob, hid)
                 outs.append([key if not opub else b"PUB", o0, o1, o2, opub, rec["rpc"]])
             except Exception as exc:  # noqa: BLE001
                 from ..core import classify
@@ -328,6 +362,8 @@ def pred(arg, out):
         if isinstance(key, Err):
             if key.name == "ValueError" and opub:
                 continue  # public-key reply: the caller is not authorised for seed keys; same with a fresh cache
+            if key.name == "DoesNotDecrypt":
+                return f"the blob a protect call produced at position {(l0, l1, l2)} does not decrypt to the plaintext with a fresh cache holding the root key"
             if key.name == "OutOfFuel":
                 return f"a call did not terminate within the KDF budget at position {(l0, l1, l2)}"
             return f"a call at position {(l0, l1, l2)} failed with {key.name}; with a fresh cache it succeeds"
